@@ -78,8 +78,12 @@ func runSolver(ctx context.Context, sp solverSpec, file string, timeoutS int) (s
 }
 
 func safeFileName(s string) string {
-	r := strings.NewReplacer("/", "_", " ", "_", "(", "", ")", "", "*", "P", "#", "-", "$", "S", "@", "-at-", "~", "-")
-	return r.Replace(s)
+	r := strings.NewReplacer("/", "_", " ", "_", "(", "", ")", "", "*", "P", "#", "-", "$", "S", "@", "-at-", "~", "-", "\"", "", ":", "_", ",", "_", "'", "", "<", "", ">", "", "|", "", "&", "", ";", "", "`", "", "\\", "")
+	out := r.Replace(s)
+	if len(out) > 180 {
+		out = out[:180]
+	}
+	return out
 }
 
 // solveOne races the solvers on one obligation.
